@@ -11,7 +11,7 @@ class TaskRec:
     __slots__ = (
         "pool", "tid", "req", "inv", "begun", "finished", "outcome", "pending",
         "owed", "seen", "self_pending", "ccb", "ecb", "complete", "unbegun_cancelled",
-        "forget", "task", "events", "susp_after_self", "cancel_ops", "done_unknown", "claim", "counted",
+        "forget", "task", "events", "susp_after_self", "cancel_ops", "done_unknown", "claim", "counted", "vias",
     )
 
     def __init__(self, pool, tid, req=None):
@@ -35,6 +35,7 @@ class TaskRec:
         self.events = []  # per-id event kinds, in order
         self.cancel_ops = 0
         self.done_unknown = False
+        self.vias = set()  # routes by which cancellations were requested: id / group / stop
         self.counted = False  # counted in PoolRec.A (admitted, not finished)
         self.claim = None  # request whose group lists this id (pool's claim)
 
@@ -144,6 +145,7 @@ class PoolRec:
         self.size_track = False
         self.closed_checked = False
         self.sreq = None
+        self.group_cancels = 0
         self.size_set_iter = -10
         self.A = 0  # tasks admitted (created) and not finished / cancelled-before-start
 
